@@ -104,3 +104,23 @@ Proof.
   exact (modes_agree_functions cfgP cfgA pf rok ffun afun rm Hf Ha Hp HA Hfl x r f fs doc st st').
 Qed.
 Print Assumptions C12_functions_after_filters_from_text.
+(* … and followed by an aggregate function (AggCor.v): the same single value in both modes, or both fail; the aggregate and the
+   filter functions behind it receive the same calls *)
+From JP Require Import AggParse AggCor.
+Theorem C12_aggregate_after_filters_from_text : forall cfgP cfgA parse_float regex_ok ffun afun regex_match,
+  (forall f v w, small v -> ffun f v = Some w -> small w) ->
+  (forall f l w, Forall small l -> afun f l = Some w -> small w) ->
+  cfg_accessor cfgP = false -> cfg_accessor cfgA = true -> cfg_filters cfgP = cfg_filters cfgA -> cfg_aggs cfgP = cfg_aggs cfgA ->
+  forall x r g fs doc st st',
+  forallb fstep_ok (x :: r) = true -> forallb (fstep_okp parse_float regex_ok) (x :: r) = true ->
+  forallb fname_ok (g :: fs) = true -> agg_known cfgP g = true -> forallb (fun_known cfgP) fs = true -> small doc -> ok st -> ok st' ->
+  exists tP tA, parse_with cfgP parse_float regex_ok jsonpath_grammar (fchain_fun_path (x :: r) (g :: fs)) = ParseOk tP /\
+                parse_with cfgA parse_float regex_ok jsonpath_grammar (fchain_fun_path (x :: r) (g :: fs)) = ParseOk tA /\
+    match fagg_outcome parse_float ffun afun regex_match (x :: r) g fs doc with
+    | None => (exists e, fst (eval_run ffun afun regex_match tP doc st) = OErr e) /\ (exists e, fst (eval_run ffun afun regex_match tA doc st') = OErr e)
+    | Some w => fst (eval_run ffun afun regex_match tP doc st) = OOk [RVal w] /\ fst (eval_run ffun afun regex_match tA doc st') = OOk [RAcc false None w]
+    end /\
+    exists cs, calls (snd (eval_run ffun afun regex_match tP doc st)) = calls st ++ cs /\
+               calls (snd (eval_run ffun afun regex_match tA doc st')) = calls st' ++ cs.
+Proof. exact modes_agree_aggregates. Qed.
+Print Assumptions C12_aggregate_after_filters_from_text.
